@@ -351,7 +351,7 @@ Fixpoint b2k_loop (fuel : nat) (b2k p m : Z) : Z :=          (* for(m = 0; b2k !
   end.
 Fixpoint ts_loop (fuel : nat) (p x b y r : Z) : Z :=
   match fuel with
-  | O => -2
+  | O => -1                                  (* fuel exhausted: reported like a failure (never happens for a prime p: r decreases) *)
   | S f =>
     if b =? 1 then x else
     let m := b2k_loop (Z.to_nat r) b p 0 in
@@ -435,7 +435,7 @@ Definition sqroottwolinear (a k : Z) : Z :=
    fix-1: the root of the odd part is tested for -1;  fix-2: sqroottwolinear receives the reduced tmpa *)
 Fixpoint sqrootmodpoweroftwo (fuel : nat) (a k pk : Z) : Z :=
   match fuel with
-  | O => -2
+  | O => -1                                  (* fuel exhausted (pow2_fuel k suffices: k halves) *)
   | S f =>
     let tmpa := a mod pk in
     if (k =? 1) || (k =? 2) || (k =? 3) then pow2_k123 tmpa k else
